@@ -139,6 +139,22 @@ pub struct Item {
 }
 
 /// Built package plus the states reached by short sign/clear/re-parse histories.
+/// A signer that cannot sign (unreachable signing service, unplugged token): consumes the data, returns an error.
+#[derive(Debug, Clone, Copy)]
+pub struct UnavailableSigner;
+
+impl rpm::signature::Signing for UnavailableSigner {
+    type Signature = Vec<u8>;
+    fn sign(&self, mut data: impl std::io::Read, _t: rpm::Timestamp) -> Result<Vec<u8>, rpm::Error> {
+        let mut v = vec![];
+        let _ = data.read_to_end(&mut v);
+        Err(rpm::Error::KeyNotFoundError { key_ref: "signing service unavailable".into() })
+    }
+    fn algorithm(&self) -> rpm::signature::AlgorithmType {
+        rpm::signature::AlgorithmType::RSA
+    }
+}
+
 pub fn with_histories(env: &Env, spec: &BuildSpec, deep: bool) -> Result<Vec<Item>, String> {
     let (pkg, bytes) = spec.build_bytes(env)?;
     let mut out = vec![Item { desc: json!({"spec": spec.to_json(), "history": []}), bytes, spec: spec.clone(), has_history: false }];
@@ -151,12 +167,21 @@ pub fn with_histories(env: &Env, spec: &BuildSpec, deep: bool) -> Result<Vec<Ite
     let mut c = pkg.clone();
     c.clear_signatures().map_err(|e| e.to_string())?;
     push(vec!["clear"], &c);
+    // a signing attempt that fails: whatever state the object is left in is what the caller will write
+    let mut f = pkg.clone();
+    if f.sign_with_timestamp(UnavailableSigner, 1_600_000_000u32).is_err() {
+        push(vec!["sign(unavailable signer) → Err"], &f);
+    }
     if deep {
         let mut s = pkg.clone();
         s.sign_with_timestamp(env.signer(Key::Ed25519), 1_600_000_000u32).map_err(|e| e.to_string())?;
         push(vec!["sign(ed25519)"], &s);
         s.sign_with_timestamp(env.signer(Key::Rsa4096), 1_700_000_000u32).map_err(|e| e.to_string())?;
         push(vec!["sign(ed25519)", "sign(rsa4096)"], &s);
+        let mut f = s.clone();
+        if f.sign(UnavailableSigner).is_err() {
+            push(vec!["sign(ed25519)", "sign(rsa4096)", "sign(unavailable signer) → Err"], &f);
+        }
         s.clear_signatures().map_err(|e| e.to_string())?;
         push(vec!["sign(ed25519)", "sign(rsa4096)", "clear"], &s);
     }
